@@ -230,3 +230,97 @@ def determinism(props, n):
         if not ok:
             bad += 1
     return 2 if bad else 0
+
+
+# ---------------------------------------------------------------------------------------------
+# seeded changes written by independent sub-agents (/verif/seeded/<id>/)
+# ---------------------------------------------------------------------------------------------
+
+
+def _run_demo(root, demo, timeout=600):
+    env = dict(os.environ)
+    env["PYTHONPATH"] = root
+    env["SEED_REPO"] = root
+    env["PYTHONDONTWRITEBYTECODE"] = "1"
+    env.pop("CVSSSIM_CHILD", None)
+    # demos were written against a path like /tmp/seed-XXX: run a copy with that path rewritten
+    with open(demo) as f:
+        src = f.read()
+    import re
+
+    src = re.sub(r"/tmp/seed-C\d\d-[a-z0-9]+", root, src)
+    path = os.path.join(root, "_demo.py")
+    with open(path, "w") as f:
+        f.write(src)
+    try:
+        p = subprocess.run(["/venv/bin/python", path], cwd=root, env=env, stdout=subprocess.PIPE, stderr=subprocess.STDOUT, timeout=timeout)
+        return p.returncode, p.stdout.decode("utf-8", "replace")[-600:]
+    except subprocess.TimeoutExpired:
+        return "timeout", ""
+    finally:
+        os.remove(path)
+
+
+def _one_seeded(d, props_all, tier):
+    t0 = time.time()
+    with open(os.path.join(d, "meta.json")) as f:
+        meta = json.load(f)
+    sid = os.path.basename(d)
+    res = {"id": sid, "property": meta["property"]}
+    tmp = tempfile.mkdtemp(prefix="cvss-seeded-")
+    root = os.path.join(tmp, "repo")
+    try:
+        make_copy(root)
+        demo = os.path.join(d, meta.get("demo", "demo.py"))
+        res["demo_on_unchanged"] = _run_demo(root, demo)[0]
+        p = subprocess.run(["git", "apply", "--whitespace=nowarn", os.path.join(d, "patch.diff")], cwd=root,
+                           stdout=subprocess.PIPE, stderr=subprocess.STDOUT)
+        if p.returncode != 0:
+            res["verdict"] = "PATCH-DOES-NOT-APPLY"
+            res["log"] = p.stdout.decode()[-500:]
+            return res
+        passed, failed = run_tests(root)
+        res["tests_passed"], res["tests_failed"] = passed, failed
+        code, out = _run_demo(root, demo)
+        res["demo_on_changed"] = code
+        props = [meta["property"]] + [q for q in meta.get("also_run", []) if q in props_all]
+        res["checks"] = {}
+        for prop in props:
+            code, out = run_check(prop, root, tier=tier, njobs=int(os.environ.get("SEEDED_JOBS", "8")))
+            sigs = [ln for ln in out.splitlines() if ln.startswith("violation:")]
+            res["checks"][prop] = {"exit": code, "signatures": [x[:300] for x in sigs[:3]], "tail": (out.splitlines() or [""])[-1][:200]}
+            if code == 2:
+                res["checks"][prop]["log"] = out[-2500:]
+        main = res["checks"][meta["property"]]
+        res["verdict"] = "caught" if main["exit"] == 1 and main["signatures"] else ("HARNESS-ERROR" if main["exit"] == 2 else "MISSED")
+        return res
+    finally:
+        shutil.rmtree(tmp, ignore_errors=True)
+        res["wall_s"] = round(time.time() - t0, 1)
+
+
+def seeded(only, tier):
+    core.attach_repo()
+    from . import checks
+
+    props_all = sorted(checks.CHECKS)
+    base = os.path.join(core.VERIF, "seeded")
+    dirs = sorted(os.path.join(base, x) for x in os.listdir(base) if os.path.exists(os.path.join(base, x, "meta.json")))
+    if only:
+        dirs = [d for d in dirs if any(os.path.basename(d).startswith(o) for o in only)]
+    results = []
+    with concurrent.futures.ThreadPoolExecutor(max_workers=2) as ex:
+        for r in ex.map(lambda d: _one_seeded(d, props_all, tier), dirs):
+            results.append(r)
+            print("%-28s %s tests=%s/%s demo(unchanged)=%s demo(changed)=%s -> %-8s %6.1fs %s" % (
+                r["id"], r["property"], r.get("tests_passed"), len(r.get("tests_failed", [])), r.get("demo_on_unchanged"),
+                r.get("demo_on_changed"), r.get("verdict"), r["wall_s"],
+                (r.get("checks", {}).get(r["property"], {}).get("signatures") or [""])[0][11:170]))
+            if r.get("verdict") != "caught":
+                print(json.dumps(r, indent=1)[:3000])
+            sys.stdout.flush()
+    with open(os.path.join(core.VERIF, "selftest", "seeded_result_%s.json" % tier), "w") as f:
+        json.dump(results, f, indent=1, sort_keys=True)
+    bad = [r for r in results if r.get("verdict") != "caught"]
+    print("selftest-seeded (%s tier): %d caught, %d not" % (tier, len(results) - len(bad), len(bad)))
+    return 1 if bad else 0
